@@ -366,6 +366,8 @@ fn cmd_run(args: &[String]) {
     let no_min = flag(args, "--no-minimise");
     let max_viol: usize = arg(args, "--max-violations").and_then(|s| s.parse().ok()).unwrap_or(8);
     let ctx = GenCtx { tier_thorough: arg(args, "--tier") == Some("thorough") };
+    // runs the driver asked to leave out (they do not terminate; reported separately)
+    let skip: BTreeSet<u64> = arg(args, "--skip").map(|s| s.split(',').filter_map(|x| x.parse().ok()).collect()).unwrap_or_default();
 
     let mut runs = 0u64;
     let mut steps = 0u64;
@@ -379,7 +381,7 @@ fn cmd_run(args: &[String]) {
 
     let mut i = start;
     while i < start + count {
-        if i % stride != offset {
+        if i % stride != offset || skip.contains(&i) {
             i += 1;
             continue;
         }
